@@ -297,6 +297,13 @@ def r2_normal_form(repo, rep, table):
   trt = [nm for nm, (e, s, i) in lin.items() if re.fullmatch(r'set\(self\.treatment_group_size_range\(\)\)', s)]
   if len(trt) != 1 and unmodelled:
     return f
+  if len(trt) != 1 and ('treatment_group_size_range' in norm(f.node) or au.delegations(repo, f)):
+    # the admissible treatment sizes are consulted, but not as a membership guard on the summand (a lookup table keyed by
+    # them, a pre-filtered iteration): not the form this rule decides
+    rep.undecided('R2/guards', 'the summand is guarded by "treatment size in set(self.treatment_group_size_range())"',
+                  'treatment_group_size_range() is consulted in count_max_designs, but not as a membership guard dominating the summand (guards found: %s)'
+                  % str({k: v[1][:60] for k, v in lin.items()})[:160], f.loc())
+    return f
   if len(trt) != 1:
     rep.violation('R2/guards', f.qualname, 'guards: %s' % {k: v[1] for k, v in lin.items()},
                   'the summand is not guarded by "treatment size in set(self.treatment_group_size_range())": designs of inadmissible treatment sizes are counted', f.loc())
@@ -402,5 +409,8 @@ def r3_sizes(repo, rep):
 def run(repo, rep, tier):
   table = r1_placement(repo, rep)
   r2_exact(repo, rep)
+  # a class whose placements were not followed (R1 undecided: yields through a helper) is counted against the placements
+  # its eligibility row allows
+  table = {k: (v if v else set(EXPECTED_PLACEMENT.get(k, ()))) for k, v in table.items()}
   r2_normal_form(repo, rep, table)
   r3_sizes(repo, rep)
